@@ -266,7 +266,12 @@ def residual_policy_set(ctx):
 def families(ctx):
     return [('decision', lambda: decision(ctx)), ('may_be_determining', lambda: determining(ctx, 'may_be_determining')),
             ('must_be_determining', lambda: determining(ctx, 'must_be_determining')), ('definitely', lambda: definitely(ctx)),
-            ('residual_policy_set', lambda: residual_policy_set(ctx))] + residual_arms(ctx)
+            ('residual_policy_set', lambda: residual_policy_set(ctx))] + residual_arms(ctx) + extra(ctx)
+
+
+def extra(ctx):
+    from . import c13_extra
+    return c13_extra.families(ctx)
 
 
 def residual_arms(ctx):
@@ -284,6 +289,7 @@ def run(ctx):
                    'replay: one policy per non-empty bucket, every binding of each unknown in {true, false, non-boolean}, reauthorize vs. authorization from scratch']
     ctx.assumptions += ['HashMap::is_empty / iter and iterator adaptors as logged terms; closure bodies executed from the MIR on one abstract member per bucket',
                         'construct_policy / Policy::from_when_clause_annos are logged constructors',
-                        'the residual-building arms of the evaluator itself are NOT covered (see DESIGN.md C13 outside)']
+                        'evaluator arms with unknown operands: residual = the operator re-applied to the (best-effort) partially evaluated operands; replay substitutes every unknown and compares with the original expression',
+                        'Expr::is_projectable node table, typed-unknown short-circuits, partial-store mode preserved by store edits; record projection through residual records, extension-call residuals, concretize_request and reauthorize end to end are NOT covered']
     return ctx.finish('Solver-decided soundness of the partial-response algebra, executed from the MIR of the current tree: decision() agrees with every completion of the residual policies and is None only '
                       'when two completions disagree; must_be_determining <= determining <= may_be_determining for every completion; definitely_errored / definitely_satisfied; the policy set reauthorize evaluates.')
